@@ -15,7 +15,7 @@ checks = {
 checks.update({
  "C01": dict(cat="model_checking", engine="schedmc", ref="6 C01",
    technique="stateless exploration of thread interleavings (iterative preemption bounding) of real olric members under a cooperative scheduler; linearizability check of every history",
-   text="Every schedule with at most 2 (quick) / 3 (thorough) preemptions of every program in a family (2-3 client threads, 1-2 ops each from Put/PutNX/PutXX/Get/Delete on one key, entry-point tuples over embedded-owner, embedded-non-owner, cluster client, raw RESP; replica counts and single/multi-table fragments; janitor/compaction background thread) is executed on a fresh real cluster; each history must be linearizable w.r.t. a register specification and final reads from every member must agree.",
+   text="Every schedule with at most 2 preemptions (completed for every program in both tiers; the thorough tier then goes on to 3 preemptions as far as its time budget allows and reports how far it got) of every program in a family (2-3 client threads, 1-2 ops each from Put/PutNX/PutXX/Get/Delete on one key, entry-point tuples over embedded-owner, embedded-non-owner, cluster client, raw RESP; replica counts and single/multi-table fragments; janitor/compaction background thread) is executed on a fresh real cluster; each history must be linearizable w.r.t. a register specification and final reads from every member must agree.",
    note="trusts the shims (sync/time/errgroup import rewrites), simnet and the cooperative scheduler's sequentially consistent view; errgroup siblings run in call order"),
  "C04": dict(cat="model_checking", engine="clustermc", ref="6 C04",
    technique="explicit-state BFS over operation sequences on a simulated cluster of real members (path replay, canonical-state de-duplication); white-box comparison of backup and primary copies after every step",
@@ -23,15 +23,15 @@ checks.update({
    note="white-box copies decoded via verif accessors; reference model only used for step expectations"),
  "C07": dict(cat="model_checking", engine="schedmc", ref="6 C07",
    technique="stateless exploration of thread interleavings (iterative preemption bounding) on real members; histories checked against counter / exchange-chain specifications",
-   text="Every schedule with at most 2/3 preemptions of 2-3 concurrent Incr/Decr/IncrByFloat/GetPut callers over all entry-point multisets and cluster configurations; returned values must form a sequential counter history (or a single GetPut chain) and the final value must equal initial + sum of deltas from every member.",
+   text="Every schedule with at most 2 preemptions (completed for every program in both tiers; thorough continues with 3 within its time budget) of 2-3 concurrent Incr/Decr/IncrByFloat/GetPut callers over all entry-point multisets and cluster configurations; returned values must form a sequential counter history (or a single GetPut chain) and the final value must equal initial + sum of deltas from every member.",
    note="same trusted base as C01"),
  "C08": dict(cat="model_checking", engine="schedmc", ref="6 C08",
    technique="stateless exploration of thread interleavings and virtual-clock advances (deviation bounding) on real members; interval oracle on virtual time stamps",
-   text="Every schedule (thread switches and clock advances) with at most 2/3 deviations of lock programs with 2-3 contenders (Lock with/without timeout and deadline, Unlock, Lease, sleeps; entry-point tuples): certain-hold intervals never overlap, Lock gives up no earlier than its deadline, a lock is acquirable within two poll periods once nobody can hold it, own unlock of an untimed lock succeeds.",
+   text="Every schedule (thread switches and clock advances) with at most 2 deviations (completed for every program in both tiers; thorough continues with 3 within its time budget) of lock programs with 2-3 contenders (Lock with/without timeout and deadline, Unlock, Lease, sleeps; entry-point tuples): certain-hold intervals never overlap, Lock gives up no earlier than its deadline, a lock is acquirable within two poll periods once nobody can hold it, own unlock of an untimed lock succeeds.",
    note="time is the virtual clock (1ns per Now, explicit advances); 1ms ttl resolution tolerated"),
  "C09": dict(cat="model_checking", engine="clustermc", ref="6 C09",
    technique="explicit-state BFS over operation/tick sequences on a simulated cluster under a virtual clock; reference model with millisecond expiry compared at every step and in every state",
-   text="All sequences up to depth 5 (quick) / 6 (thorough) over Put with every option form, Expire, Get, GetPut, Incr, ticks landing 1ms before/at/after deadlines and eviction passes, through EO/EN/CC (RN, R=2 and default TTL in thorough): every result and a Get from every member in every state agree with the reference model.",
+   text="All sequences up to depth 5 (quick) / 6 (thorough) over Put with every option form, Expire, Get, GetPut, Incr, ticks landing 1ms before/at/after deadlines and eviction passes, through EO/EN/CC (plus R=2, default TTL given globally and per DMap, and non-initial start states; RN in thorough): every result and a Get from every member in every state agree with the reference model.",
    note="ticks and deadlines are whole milliseconds so comparisons never fall inside the stored resolution"),
 
  "C05": dict(cat="fault_enumeration", engine="faultgrid", ref="6 C05",
